@@ -18,7 +18,7 @@ from analysis import cfg, atoms as A, preach, layout as L, writes, poly as P
 from analysis.ir import callee_path, AnchorMissing
 from analysis.prov import prov_of, prov_assuming, strip, leaves, subterms, show
 from analysis.match import is_param, is_field, is_call, const_val, sh, mentions, fail_conditions
-from rules.common import calls_to, ends, arg_name, acc
+from rules.common import calls_to, ends, arg_name, acc, enum_arms, arm_prov
 from rules import C12
 
 TA = "state::tick_array::TickArrayType"
@@ -332,16 +332,37 @@ def R4_size_and_rent(run):
             conds = got.get(v)
             ok = conds is not None and all(has(conds, n, t) for n, t in reqs) and len(conds) == len(reqs) + 0
             run.check("R4", "%s@%s" % (v, label), ok, "%s: %s is chosen under %s" % (path, v, conds), loc=fn.loc(), detail="%s under %s" % (v, [c for c in (conds or [])]))
-    for path, sign in (("manager::tick_array_manager::increase_tick_array_size", "Add"), ("manager::tick_array_manager::decrease_tick_array_size", "Sub"),
-                       ("pinocchio::ported::manager_tick_array_manager::pino_increase_tick_array_size", "Add"), ("pinocchio::ported::manager_tick_array_manager::pino_decrease_tick_array_size", "Sub")):
+    # (the four private resize helpers are always analysed inlined into the two executors: analysis/canon.py ALWAYS_INLINE)
+    for path, pname, tag in (("manager::tick_array_manager::TickArraySizeUpdate::execute", "self", ""),
+                             ("pinocchio::ported::manager_tick_array_manager::pino_tick_array_size_update_execute", "size_update", "pino_")):
         fn = facts.need_fn(path)
         run.touch(fn)
-        cs = calls_to(fn, lambda p: p.endswith("::realloc") or p.endswith("::resize"))
-        ok = len(cs) == 1
-        if ok:
-            sz = strip(cs[0][2][1])
-            ok = sz[0] == "bin" and sz[1].startswith(sign) and const_val(sz[3]) == 112 and mentions(sz[2], lambda s: s[0] == "call" and s[1].endswith("data_len"))
-        run.check("R4", "resize@" + path.rsplit("::", 1)[-1], ok, "%s does not resize to data_len %s 112" % (path, "+" if sign == "Add" else "-"), loc=fn.loc(), detail="data_len %s TICK_INITIALIZATION_SIZE (112)" % ("+" if sign == "Add" else "-"))
+        arms = enum_arms(fn, facts, lambda t: is_param(t, pname))
+        if arms is None:
+            run.missing("R4", "resize@" + path.rsplit("::", 1)[-1], "%s does not match on its TickArraySizeUpdate" % path, loc=fn.loc())
+            continue
+        sw, amap = arms
+        for variant, sign, name in (("Increase", "Add", tag + "increase_tick_array_size"), ("Decrease", "Sub", tag + "decrease_tick_array_size"), ("None", None, tag + "no_size_update")):
+            if variant not in amap:
+                run.missing("R4", "resize@" + name, "%s has no arm for TickArraySizeUpdate::%s" % (path, variant), loc=fn.loc())
+                continue
+            pva = arm_prov(fn, sw, amap[variant])
+            cs = []
+            for bi, t in fn.calls():
+                p_ = callee_path(t) or ""
+                if (p_.endswith("::realloc") or p_.endswith("::resize")) and pva.flow.state_in[bi] is not None and not fn.blocks[bi]["c"]:
+                    cs.append((bi, t, [pva.operand(a_, bi, len(fn.blocks[bi]["s"])) for a_ in t["a"]]))
+            if sign is None:
+                ok = not cs
+                msg = "%s resizes the account although no size update is due" % path
+            else:
+                ok = len(cs) == 1
+                if ok:
+                    want = {("data_len",): 1, (): 112 if sign == "Add" else -112}
+                    got = P.poly(cs[0][2][1], lambda x: "data_len" if (strip(x)[0] == "call" and strip(x)[1].endswith("data_len")) else sh(x, 40))
+                    ok = got == want and bool(cfg.result_checked(fn, cs[0][0]))
+                msg = "%s (%s) does not resize to data_len %s 112 with the result checked" % (path, variant, "+" if sign == "Add" else "-")
+            run.check("R4", "resize@" + name, ok, msg, loc=fn.loc(), detail=("data_len %s TICK_INITIALIZATION_SIZE (112)" % ("+" if sign == "Add" else "-")) if sign else "no resize")
 
 
 def R5_shared_checks(run):
